@@ -97,7 +97,8 @@ type c09run struct {
 	releaseCh chan struct{}
 	ticksB    []int
 	ticksA    []int
-	lastMove  int64 // unix nano of the last hook call
+	lastMove  int64  // unix nano of the last hook call
+	parkFID   uint64 // run id of the frame of the first parked operation
 }
 
 var c09cur atomic.Pointer[c09run]
@@ -118,7 +119,7 @@ func c09gid() uint64 {
 	return id
 }
 
-func c09hook(ip *interp.Interpreter, _ uint64) {
+func c09hook(ip *interp.Interpreter, fid uint64) {
 	r := c09cur.Load()
 	if r == nil || r.ip != ip {
 		return
@@ -137,6 +138,9 @@ func c09hook(ip *interp.Interpreter, _ uint64) {
 		return
 	}
 	if r.k > 0 && r.n >= r.k {
+		if len(r.parkedG) == 0 {
+			r.parkFID = fid
+		}
 		r.parkedG[g] = true
 		r.mu.Unlock()
 		r.parkOnce.Do(func() { close(r.parkedCh) })
@@ -793,7 +797,8 @@ func c09templates(r *rng, thorough bool) []c09tmpl {
 		CoqF:    "[ [Nop]; [Nop; Block true; Ret]; [Nop; Call 1] ]",
 		CoqScen: c09park("(session [PRoot 0] ++ alone 0 8)", 1, "[PRoot 2]", true, "[]", "[1]")})
 
-	// ---- single-threaded, known-finding regions
+	// ---- single-threaded: the witnesses of the repaired init-list defect (fix: interp.run takes the root frame's
+	// run id), kept in the main stream as corpus cases: cancel inside init(), inside package variable initialisation
 	n2, n3 := 1+r.intn(3), 1+r.intn(3)
 	{
 		var i2, i3 []int
@@ -805,19 +810,20 @@ func c09templates(r *rng, thorough bool) []c09tmpl {
 		}
 		g2, c2 := c09ticksBody(i2)
 		g3, c3 := c09ticksBody(i3)
-		ts = append(ts, c09tmpl{Name: "init-list", Class: "single", Region: "init-list", Kind: "park", KMax: 24,
+		ts = append(ts, c09tmpl{Name: "init-list", Class: "single", Kind: "park", KMax: 24,
 			Src:     fmt.Sprintf("package main\n\nimport \"host\"\n\nfunc init() {\n\tfor {\n\t\thost.Tick(1)\n\t}\n}\n\nfunc init() { %s }\n\nfunc main() { %s }\n", g2, g3),
 			CoqF:    fmt.Sprintf("[ []; [Nop; Tick 1; Jmp 0]; [%s]; [%s] ]", c2, c3),
 			CoqScen: c09park("[]", 0, "[PRoot 0; PFun 1; PFun 2; PFun 3]", false, "[]", "[0]")})
-		ts = append(ts, c09tmpl{Name: "init-then-main", Class: "single", Region: "init-list", Kind: "park", KMax: 16,
+		ts = append(ts, c09tmpl{Name: "init-then-main", Class: "single", Kind: "park", KMax: 16,
 			Src:     fmt.Sprintf("package main\n\nimport \"host\"\n\nfunc init() {\n\tfor {\n\t\thost.Tick(1)\n\t}\n}\n\nfunc main() { %s }\n", g3),
 			CoqF:    fmt.Sprintf("[ []; [Nop; Tick 1; Jmp 0]; [%s] ]", c3),
 			CoqScen: c09park("[]", 0, "[PRoot 0; PFun 1; PFun 2]", false, "[]", "[0]")})
-		ts = append(ts, c09tmpl{Name: "package-vars", Class: "single", Region: "init-list", Kind: "park", KMax: 4,
+		ts = append(ts, c09tmpl{Name: "package-vars", Class: "single", Kind: "park", KMax: 4,
 			Src:     fmt.Sprintf("package main\n\nimport \"host\"\n\nvar a = host.TickRet(5)\nvar b = host.TickRet(6)\n\nfunc main() { %s }\n", g3),
 			CoqF:    fmt.Sprintf("[ []; [Nop; Tick 5; Nop; Nop; Tick 6; Nop]; [%s] ]", c3),
 			CoqScen: c09park("[]", 0, "[PRoot 0; PRoot 1; PFun 2]", false, "[]", "[0]")})
 	}
+	// ---- single-threaded, known-finding regions
 	ts = append(ts, c09tmpl{Name: "repl-next-eval", Class: "single", Region: "root-revival", Kind: "revival", KMax: 12,
 		Pre:     []string{"import \"host\""},
 		Src:     "host.Tick(1); host.Tick(2); host.Tick(3); host.Tick(4); host.Tick(5); host.Tick(6)\n",
